@@ -28,41 +28,58 @@ pub struct Cfg {
     /// Swapper: 'C' = set_catalog(g2), 'K' = set_tsig_keys(g2), then its own
     /// MX query.
     pub swapper: String,
+    /// Key set 1 holds `k.` under HMAC-SHA1 and key set 2 under HMAC-SHA256
+    /// (an operator upgrading a key's algorithm together with its secret);
+    /// the client signs with the old credentials. Otherwise both sets use
+    /// HMAC-SHA256 and differ in the secret only.
+    pub alg_change: bool,
 }
 
 impl Cfg {
     pub fn label(&self) -> String {
-        format!("plain={:?} signed={} swapper={}", self.plain, self.signed, self.swapper)
+        format!("plain={:?} signed={} swapper={}{}", self.plain, self.signed, self.swapper, if self.alg_change { " alg-change" } else { "" })
     }
     pub fn to_json(&self) -> Value {
-        json!({"plain_queriers": self.plain, "signed_queriers": self.signed, "swapper_ops": self.swapper})
+        json!({"plain_queriers": self.plain, "signed_queriers": self.signed, "swapper_ops": self.swapper, "key_algorithm_changes": self.alg_change})
     }
 }
 
 pub fn configs(_quick: bool) -> Vec<Cfg> {
     let p = |v: &[&str]| v.iter().map(|s| s.to_string()).collect::<Vec<_>>();
-    vec![
-        Cfg { plain: p(&["M"]), signed: 0, swapper: "C".into() },
-        Cfg { plain: p(&["MM"]), signed: 0, swapper: "C".into() },
-        Cfg { plain: p(&["N"]), signed: 0, swapper: "C".into() },
-        Cfg { plain: p(&["MN"]), signed: 0, swapper: "CK".into() },
-        Cfg { plain: p(&["M", "N"]), signed: 0, swapper: "C".into() },
-        Cfg { plain: p(&["M", "A"]), signed: 0, swapper: "CK".into() },
-        Cfg { plain: p(&[]), signed: 1, swapper: "K".into() },
-        Cfg { plain: p(&[]), signed: 1, swapper: "CK".into() },
-        Cfg { plain: p(&[]), signed: 1, swapper: "KC".into() },
-        Cfg { plain: p(&["M"]), signed: 1, swapper: "CK".into() },
-        Cfg { plain: p(&["M"]), signed: 1, swapper: "KC".into() },
-        Cfg { plain: p(&[]), signed: 2, swapper: "K".into() },
-        Cfg { plain: p(&["MM"]), signed: 1, swapper: "CK".into() },
-    ]
+    let mut v = vec![
+        Cfg { plain: p(&["M"]), signed: 0, swapper: "C".into(), alg_change: false },
+        Cfg { plain: p(&["MM"]), signed: 0, swapper: "C".into(), alg_change: false },
+        Cfg { plain: p(&["N"]), signed: 0, swapper: "C".into(), alg_change: false },
+        Cfg { plain: p(&["MN"]), signed: 0, swapper: "CK".into(), alg_change: false },
+        Cfg { plain: p(&["M", "N"]), signed: 0, swapper: "C".into(), alg_change: false },
+        Cfg { plain: p(&["M", "A"]), signed: 0, swapper: "CK".into(), alg_change: false },
+        Cfg { plain: p(&[]), signed: 1, swapper: "K".into(), alg_change: false },
+        Cfg { plain: p(&[]), signed: 1, swapper: "CK".into(), alg_change: false },
+        Cfg { plain: p(&[]), signed: 1, swapper: "KC".into(), alg_change: false },
+        Cfg { plain: p(&["M"]), signed: 1, swapper: "CK".into(), alg_change: false },
+        Cfg { plain: p(&["M"]), signed: 1, swapper: "KC".into(), alg_change: false },
+        Cfg { plain: p(&[]), signed: 2, swapper: "K".into(), alg_change: false },
+        Cfg { plain: p(&["MM"]), signed: 1, swapper: "CK".into(), alg_change: false },
+    ];
+    for (signed, swapper) in [(1usize, "K"), (1, "CK"), (1, "KC"), (2, "K")] {
+        v.push(Cfg { plain: vec![], signed, swapper: swapper.into(), alg_change: true });
+    }
+    v
 }
 
 const SECRET: [&[u8]; 3] = [b"", b"secret-of-generation-one-0000000", b"secret-of-generation-two-0000000"];
 
-fn keys(g: usize) -> TsigKeyMap {
+fn alg_of(g: usize, alg_change: bool) -> Alg {
+    if alg_change && g == 1 {
+        Alg::Sha1
+    } else {
+        Alg::Sha256
+    }
+}
+
+fn keys(g: usize, alg_change: bool) -> TsigKeyMap {
     let mut m = TsigKeyMap::new();
-    let alg = Algorithm::from_name(&srv::qname(&Alg::Sha256.wire_name())).unwrap();
+    let alg = Algorithm::from_name(&srv::qname(&alg_of(g, alg_change).wire_name())).unwrap();
     m.insert(srv::qname(&wname("k.")), (alg, SECRET[g].to_vec().into_boxed_slice()));
     m
 }
@@ -141,7 +158,7 @@ fn check_plain(sink: &Sink, who: &str, resp: Option<Vec<u8>>, must_be_new: bool)
 pub fn body(cfg: &Cfg) -> ExecReport {
     mcshim::reset();
     let server = Server::new(Arc::new(srv::gen_catalog(1)));
-    server.set_tsig_keys(Arc::new(keys(1)));
+    server.set_tsig_keys(Arc::new(keys(1, cfg.alg_change)));
     let server = Arc::new(server);
     let sink = Arc::new(Sink { violation: Mutex::new(None), outcomes: Mutex::new(Vec::new()) });
     // Flags written with std atomics: no scheduling point.
@@ -166,12 +183,14 @@ pub fn body(cfg: &Cfg) -> ExecReport {
     }
     for si in 0..cfg.signed {
         let (server, sink, kswapped) = (server.clone(), sink.clone(), keys_swapped.clone());
+        let alg_change = cfg.alg_change;
         hs.push(mcshim::thread::spawn(move || {
+            let calg = alg_of(1, alg_change);
             let now = SystemTime::now().duration_since(SystemTime::UNIX_EPOCH).unwrap().as_secs();
             let base = srv::query(0x5100 + si as u16, "a.t.", t::MX);
-            let alg_name = Alg::Sha256.wire_name();
-            // The client signs with the generation-1 secret.
-            let (req, req_mac) = reftsig::sign_request(&base, &wname("k."), Alg::Sha256, &alg_name, SECRET[1], now, 300, None);
+            let alg_name = calg.wire_name();
+            // The client signs with the generation-1 credentials.
+            let (req, req_mac) = reftsig::sign_request(&base, &wname("k."), calg, &alg_name, SECRET[1], now, 300, None);
             let keys_new_before = kswapped.load(Ordering::SeqCst);
             let Some(r) = srv::handle(&server, &req, src, true) else {
                 sink.viol("no-response", format!("signed{si}: no response"));
@@ -196,8 +215,8 @@ pub fn body(cfg: &Cfg) -> ExecReport {
                 // Verified with s1 => the response must be signed with s1 too.
                 let without = &r[..ts.offset];
                 let vars = reftsig::TsigVars { key_name: ts.name.clone(), alg_name: td.alg_name.clone(), time_signed: td.time_signed, fudge: td.fudge, error: td.error, other: td.other.clone() };
-                let mac1 = reftsig::mac_response(Alg::Sha256, SECRET[1], &req_mac, without, td.original_id, &vars);
-                let mac2 = reftsig::mac_response(Alg::Sha256, SECRET[2], &req_mac, without, td.original_id, &vars);
+                let mac1 = reftsig::mac_response(calg, SECRET[1], &req_mac, without, td.original_id, &vars);
+                let mac2 = reftsig::mac_response(calg, SECRET[2], &req_mac, without, td.original_id, &vars);
                 if td.mac == mac1 {
                     if keys_new_before {
                         sink.viol("stale-keys-after-swap-returned", format!("signed{si}: request started after set_tsig_keys returned but was verified with the old secret"));
@@ -212,6 +231,16 @@ pub fn body(cfg: &Cfg) -> ExecReport {
                 } else {
                     sink.viol("response-mac-invalid", format!("signed{si}: response MAC verifies under neither secret"));
                 }
+            } else if alg_change && m.header.rcode == 9 && td.error == 17 && td.mac.is_empty() {
+                // BADKEY: key set 2 has no key `k.` for the client's algorithm.
+                if !m.answers.is_empty() {
+                    sink.viol("answer-data-with-badkey", format!("signed{si}"));
+                }
+                sink.outcomes.lock().unwrap().push(format!("signed{si}:badkey-set2"));
+            } else if alg_change && m.header.rcode == 9 && td.error == 16 {
+                // Neither key set alone rejects this signature as BADSIG: set
+                // 1 verifies it, set 2 does not know the (key, algorithm) pair.
+                sink.viol("mixed-key-sets", format!("signed{si}: BADSIG although key set 1 verifies the request and key set 2 has no such key for this algorithm: algorithm and secret were taken from different key sets"));
             } else if m.header.rcode == 9 && td.error == 16 && td.mac.is_empty() {
                 // BADSIG: the server used key set 2 for verification.
                 if !m.answers.is_empty() {
@@ -225,6 +254,7 @@ pub fn body(cfg: &Cfg) -> ExecReport {
     }
     {
         let (server, sink, cs, ks, ops) = (server.clone(), sink.clone(), catalog_swapped.clone(), keys_swapped.clone(), cfg.swapper.clone());
+        let alg_change = cfg.alg_change;
         hs.push(mcshim::thread::spawn(move || {
             for op in ops.chars() {
                 match op {
@@ -233,7 +263,7 @@ pub fn body(cfg: &Cfg) -> ExecReport {
                         cs.store(true, Ordering::SeqCst);
                     }
                     _ => {
-                        server.set_tsig_keys(Arc::new(keys(2)));
+                        server.set_tsig_keys(Arc::new(keys(2, alg_change)));
                         ks.store(true, Ordering::SeqCst);
                     }
                 }
